@@ -182,6 +182,7 @@ class Step:
         self.post_store = o["post_stores"][k + 1]
         self.taps = [t for t in o["taps"] if t["step"] == k]
         self.probe_taps = {j: [t for t in o["taps"] if t["step"] == 1000 + 10 * k + j] for j in range(4)}
+        self.tables = o.get("tables") or {}
         self.strict = bool(case.get("strict"))      # a history no known finding lists: nothing is classified as known
         self.remote = (case.get("steps") or [{}] * (k + 1))[k].get("remote") if k < len(case.get("steps") or []) else None
 
@@ -271,6 +272,55 @@ def oracle_c12(step):
 def covered(e, olds):
     pkg, ver, clo, sug, notes = e
     return any(o[0] == pkg and o[1] == ver and clo <= o[2] and sug == o[3] and notes == o[4] for o in olds)
+
+
+def oracle_c17(step):
+    """`certify` WITHOUT --criteria (the user presses ENTER at the prompt, so what is recorded is what cargo-vet pre-selected):
+    every pre-selected criterion is one for which the delta connects an audited version to a needed one — <from> (if any) is
+    certified for it by the records of the store the command found (exemptions included: the weakest reading), and some version
+    of the crate in the graph is required to meet it and is <to> or reachable from <to> for it.  Judged on the interned store
+    before the command with an independent reachability over the records."""
+    out = []
+    if step.cls != "certify" or step.outcome != "ok" or "--criteria" in step.args or not step.pre_store or not step.post_store:
+        return out
+    pos = []
+    for a in step.args[2:]:
+        if a.startswith("--"):
+            break
+        pos.append(a)
+    tb = step.tables
+    names, vers = tb.get("names") or [], tb.get("versions") or []
+    taps = [t for t in step.taps if t["kind"] == "resolve"]
+    if not pos or len(pos) > 2 or step.args[1] not in names or any(v not in vers for v in pos) or not taps:
+        return out
+    ni = names.index(step.args[1])
+    to = vers.index(pos[-1])
+    frm = vers.index(pos[0]) if len(pos) == 2 else None
+    try:
+        store = step.pre_store["store"]
+        table = O.table_of(store)
+        graph = taps[0]["model_input"]["graph"]
+        nodes, _ = O.graph_nodes(graph)
+        R, _ = O.requirements(table, graph)
+        ps = O.pkg_store(store, ni)
+        edges = O.edges_of(table, ps)
+        pre = Counter(akey(a) for a in ps[1])
+        post = Counter(akey(a) for a in O.pkg_store(step.post_store["store"], ni)[1])
+    except Exception:
+        return out
+    crit = tb.get("criteria") or []
+    for (_k, _ka, cl) in (post - pre).elements():
+        for c in cl:
+            cn = crit[c] if c < len(crit) else f"#{c}"
+            if frm is not None and not O.certified(edges, c, frm):
+                out.append({"what": f"`certify {step.args[1]} {' '.join(pos)}` pre-selected {cn}, but {pos[0]} is not certified for it by any chain of "
+                                    "records: the delta does not connect an audited version"})
+                continue
+            needed = [nd["version"] for i, nd in enumerate(nodes) if nd["third"] and nd["name"] == ni and R and c in R[i]]
+            if not any(v == to or v in O.reachable(edges, c, to, lambda e: False) for v in needed):
+                out.append({"what": f"`certify {step.args[1]} {' '.join(pos)}` pre-selected {cn}, which no version of the crate in the graph reachable "
+                                    f"from {pos[-1]} is required to meet"})
+    return out
 
 
 def oracle_c05(step):
@@ -579,6 +629,31 @@ def run_histories(spec, cases, work, model_ok=True, compare_taps=True):
                     if cc:
                         cexprs.append((f"{cid}@{k}", cc[0]))
                         cwant[f"{cid}@{k}"] = cc[1]
+        gexprs, gwant = [], {}
+        for cid, o in obs.items():
+            if o["status"] != "ok":
+                continue
+            for k in range(len(o["steps"])):
+                st = Step(k, bycase[cid], o)
+                if st.cls == "certify" and "--criteria" not in st.args:
+                    gc = usercmd.guess_case(st, o)
+                    if gc:
+                        gexprs.append((f"{cid}@{k}", gc[0]))
+                        gwant[f"{cid}@{k}"] = gc[1]
+        gmodel = vetlib.run_model(gexprs, os.path.join(work, "model-guess"), usercmd.GUESS_IMPORTS) if gexprs else {}
+        for key, want in gwant.items():
+            cid, k = key.rsplit("@", 1)
+            m = gmodel.get(key, "MODEL-ERROR: missing")
+            if m.startswith("MODEL-ERROR"):
+                res["mismatches"].append({"id": cid, "why": f"step {k} (certify, pre-selected criteria): model evaluation failed: {m[:300]}", "case": gen.strip_struct(bycase[cid])})
+                continue
+            compared += 1
+            got = usercmd.canon_guess(m)
+            if got != want:
+                res["mismatches"].append({"id": cid, "why": f"step {k}: the criteria `{' '.join(obs[cid]['steps'][int(k)]['args'][:4])}` pre-selected (as a set, "
+                                          "closed under implication) differ from the model's guess_audit_criteria",
+                                          "impl": json.dumps(want)[:600], "model": json.dumps(got)[:600], "case": gen.strip_struct(bycase[cid])})
+        guess_compared = len(gwant)
         cmodel = vetlib.run_model(cexprs, os.path.join(work, "model-certify"), usercmd.CERTIFY_IMPORTS) if cexprs else {}
         for key, want in cwant.items():
             cid, k = key.rsplit("@", 1)
@@ -647,6 +722,7 @@ def run_histories(spec, cases, work, model_ok=True, compare_taps=True):
     res["nontrivial"] = nontrivial
     res["stats"] = {"harness_status": dict(Counter(o["status"] for o in obs.values())), "commands": dict(cmds),
                     "certify_entries_compared_with_the_model": locals().get("certify_compared", 0),
+                    "certify_guesses_compared_with_the_model": locals().get("guess_compared", 0),
                     "outcomes": {f"{a}:{b}": n for (a, b), n in sorted(outcomes.items())}, "compared": compared,
                     "taps": sum(len(o.get("taps", [])) for o in obs.values())}
     if res["mismatches"]:
